@@ -23,7 +23,7 @@ var (
 	c13IPc   = netip.MustParseAddr("192.168.0.12")
 	c13Tgt   = []packet.Addr{{MAC: env.MAC1, IP: ip4a}, {MAC: env.MAC2, IP: ip4b}}
 	apiNames = []string{"StartHunt(t1)", "StartHunt(t2)", "StopHunt(t1)", "StopHunt(t2)", "Close"}
-	pktNames = []string{"req(t1->router)", "req(t1->other)", "req(t3->router)", "probe(m3,offer!=target)", "probe(m3,offer==target)", "probe(m3,offlan)", "probe(t2,nooffer)", "announce(t1)", "reply(t1)"}
+	pktNames = []string{"req(t1->router)", "req(t1->other)", "req(t3->router)", "probe(m3,offer!=target)", "probe(m3,offer==target)", "probe(m3,offlan)", "probe(t2,nooffer)", "announce(t1)", "reply(t1)", "req(m3 with t1's ip->router)"}
 )
 
 // huntEvent is one entry of the totally ordered per-execution log.
@@ -60,6 +60,9 @@ func c13Packet(k int) []byte {
 		return refnet.Eth(bcast, env.MAC1, 0x0806, refnet.ARP(1, env.MAC1, ip4a, bcast, ip4a))
 	case 8:
 		return refnet.Eth(env.HostMAC, env.MAC1, 0x0806, refnet.ARP(2, env.MAC1, ip4a, env.HostMAC, ip4host))
+	case 9:
+		// a host that is NOT hunted asks for the router using the IP address of the hunted host t1
+		return refnet.Eth(bcast, env.MAC3, 0x0806, refnet.ARP(1, env.MAC3, ip4a, zero, ip4rtr))
 	}
 	return nil
 }
@@ -379,7 +382,7 @@ func c13Scenarios(apiLen, pktLen int) []*concScenario {
 
 func c13Run(c *core.Ctx, args []string) {
 	c.Res.Level = "model_checking"
-	c.Res.Rule = "outer enumeration: every API history of length <=2 (thorough <=3) over {StartHunt(t1), StartHunt(t2), StopHunt(t1), StopHunt(t2), Close} on the caller thread x every packet sequence of length <=1 (thorough: <=2 for API length <=2) over 9 ARP packets (requests from hunted and non-hunted hosts, probes with/without/equal offers and off-LAN targets, announcement, reply) on the packet-loop thread; inner: stateless DFS over all schedules (threads, spoof loops, ticker firings in virtual time) up to the deviation bound, followed by two spoof cycles, Close, and two more cycles. A linear-time monitor over the emitted ARP frames and the API call/return log checks confinement, probe-reject conditions, undo on StopHunt (corrective packet within one cycle, no forged packet afterwards), idempotent StartHunt and Close. distinct = distinct observation vectors"
+	c.Res.Rule = "outer enumeration: every API history of length <=2 (thorough <=3) over {StartHunt(t1), StartHunt(t2), StopHunt(t1), StopHunt(t2), Close} on the caller thread x every packet sequence of length <=1 (thorough: <=2 for API length <=2) over 10 ARP packets (requests from hunted and non-hunted hosts, probes with/without/equal offers and off-LAN targets, announcement, reply) on the packet-loop thread; inner: stateless DFS over all schedules (threads, spoof loops, ticker firings in virtual time) up to the deviation bound, followed by two spoof cycles, Close, and two more cycles. A linear-time monitor over the emitted ARP frames and the API call/return log checks confinement, probe-reject conditions, undo on StopHunt (corrective packet within one cycle, no forged packet afterwards), idempotent StartHunt and Close. distinct = distinct observation vectors"
 	c.Res.Assumptions = []string{"one forged announcement per loop may still leave after StopHunt returned (the loop had passed its membership check): the property's 'no further' is read per loop cycle", "a StopHunt/StartHunt pair may leave two loops for one target (not constrained by the statement)", "time is virtual: 'within one cycle' is checked on the virtual clock"}
 	apiLen, pktLen, bound := 2, 1, 1
 	if c.Thorough() {
